@@ -445,6 +445,15 @@ func (v *VerifSentPH) AppHighest() int64 {
 	return int64(v.h.appDataPackets.history.highestPacketNumber)
 }
 
+// AppLowestTracked: lowest packet number still in the application-data history's packets slice.
+func (v *VerifSentPH) AppLowestTracked() (int64, bool) {
+	h := &v.h.appDataPackets.history
+	if len(h.packets) == 0 {
+		return 0, false
+	}
+	return int64(h.firstPacketNumber), true
+}
+
 func (v *VerifSentPH) HandshakeConfirmed() bool { return v.h.handshakeConfirmed }
 
 // AmplificationLimited recomputes the limit from the byte counters (not via isAmplificationLimited).
